@@ -144,21 +144,25 @@ def _alarm(signum, frame):
 
 _HORIZON_HITS = [0]
 HORIZON_LIMIT = 3
+_SKIPPED = [False]  # the Horizon just raised was a fast-fail skip, not a measured time-out
 
 
 class deadline:
     """Horizon for one execution, measured in CPU seconds of this process (ITIMER_PROF): the library is pure computation, so
     a non-terminating execution burns CPU, while a machine that is merely busy (other checks running) cannot make a finite
     execution look endless. A wall-clock backstop of 20x (at least 60 s) covers the unexpected blocking case.
-    After HORIZON_LIMIT hits inside one work item the remaining executions of that item fail fast (still reported as horizon
-    violations): a non-terminating configuration must not burn the budget."""
+    After HORIZON_LIMIT hits inside one work item the remaining executions of that item are skipped (counted as
+    `skipped_after_horizon`, not reported under a signature of their own - they were never run, so they could not be
+    replayed): a non-terminating configuration must not burn the budget; the measured hits are the violations."""
 
     def __init__(self, seconds: float):
         self.seconds = seconds
 
     def __enter__(self):
         if _HORIZON_HITS[0] >= HORIZON_LIMIT:
+            _SKIPPED[0] = True
             raise Horizon("skipped: this work item already exceeded its horizon %d times" % HORIZON_LIMIT)
+        _SKIPPED[0] = False
         signal.signal(signal.SIGPROF, _alarm)
         signal.signal(signal.SIGALRM, _alarm)
         signal.setitimer(signal.ITIMER_PROF, self.seconds)
@@ -280,6 +284,10 @@ class Report:
 
     def violation(self, sig, case):
         """sig: stable structured signature string (what fails); case: replayable dict."""
+        if _SKIPPED[0] and "horizon" in sig:
+            _SKIPPED[0] = False
+            self.inc("skipped_after_horizon")
+            return
         self.inc("violations_raw")
         for v in self.viol:
             if v["sig"] == sig:
